@@ -3,6 +3,7 @@ package main
 
 import (
 	"bytes"
+	"encoding/base64"
 	"fmt"
 	"io"
 	"log"
@@ -41,8 +42,12 @@ func unmarshal(b []byte) (q lorawan.PHYPayload, s string) {
 	return q, cq.Ok(framefmt.Phy(q, framefmt.DecodedFOptsLen(b)))
 }
 
-func roundTrip(s *cases.Set, p lorawan.PHYPayload, kind string) {
-	t := framefmt.Phy(p, 0)
+func roundTrip(s *cases.Set, p lorawan.PHYPayload, kind string) { roundTripL(s, p, kind, 0) }
+
+// roundTripL: foptsLen is the value of the unexported FCtrl.fOptsLen field of p (0 for hand-built
+// frames, the decoded nibble for frames that came out of UnmarshalBinary)
+func roundTripL(s *cases.Set, p lorawan.PHYPayload, kind string, foptsLen int) {
+	t := framefmt.Phy(p, foptsLen)
 	b, oenc := marshal(p)
 	odec := cq.Err
 	if b != nil {
@@ -134,6 +139,43 @@ func main() {
 			p := lorawan.PHYPayload{MHDR: lorawan.MHDR{MType: lorawan.Proprietary, Major: lorawan.Major(r.Intn(4))}, MACPayload: &lorawan.DataPayload{Bytes: r.Bytes(r.Intn(60))}}
 			copy(p.MIC[:], r.Bytes(4))
 			roundTrip(s, p, "proprietary")
+		}
+		if i%5 == 0 { // a decoded frame edited by the application and sent on: stale internal FOptsLen
+			o := framefmt.ValidDataOpt(r)
+			o.FOptsBytes = 1 + r.Intn(15)
+			if o.Port == 0 {
+				o.Port = 1 + r.Intn(200)
+			}
+			if b, err := framefmt.DataFrame(r, o).MarshalBinary(); err == nil {
+				var q lorawan.PHYPayload
+				if q.UnmarshalBinary(b) == nil {
+					m := q.MACPayload.(*lorawan.MACPayload)
+					old := framefmt.DecodedFOptsLen(b)
+					switch r.Intn(3) {
+					case 0:
+						m.FHDR.FOpts = nil
+					case 1:
+						m.FHDR.FOpts = []lorawan.Payload{&lorawan.DataPayload{Bytes: r.Bytes(1 + r.Intn(15))}}
+					default:
+						m.FHDR.FOpts = framefmt.ValidCmds(r, o.MType == lorawan.UnconfirmedDataUp || o.MType == lorawan.ConfirmedDataUp, 1+r.Intn(15))
+					}
+					roundTripL(s, q, "data-edited-after-decode", old)
+				}
+			}
+		}
+		if i%6 == 0 { // proprietary frames whose base64 text consists of hex digits only
+			hexd := "0123456789abcdefABCDEF"
+			n := 4 * (2 + r.Intn(6))
+			txt := []byte("4A")
+			for len(txt) < n {
+				txt = append(txt, hexd[r.Intn(len(hexd))])
+			}
+			if b, err := base64.StdEncoding.DecodeString(string(txt)); err == nil && len(b) >= 5 {
+				var q lorawan.PHYPayload
+				if q.UnmarshalBinary(b) == nil {
+					roundTrip(s, q, "proprietary-hexlike-text")
+				}
+			}
 		}
 		if i%3 == 0 { // malformed stream
 			o := framefmt.ValidDataOpt(r)
